@@ -93,6 +93,12 @@ class ChannelList(gpp.UGenSequence, aob.AbstractSequence, list):
     def min_nyquist(self):
         return type(self)(bi.min(item, ifu.SampleRate.ir * 0.5) for item in self)
 
+    def not_(self):
+        # operator.not_ is plain truthiness, the channels know better.
+        return type(self)(
+            i.not_() if isinstance(i, aob.AbstractObject) else not i
+            for i in self)
+
     def degrad(self):
         return self._multichannel_perform('degrad')
 
